@@ -42,7 +42,7 @@ fn mk(day: i64, ts: bool, tb: i64, row: i64) -> BrokerTx {
 }
 
 bt_harness! {
-    #[kani::unwind(4)]
+    #[kani::unwind(5)]
     fn c18_brokertx_order_total() {
         // three rows with symbolic (day, timestamp, tiebreak, row): the comparison is
         // antisymmetric and transitive, and FX buys (1) come before FX sells (2) on ties
